@@ -107,6 +107,9 @@ func c13WordLists(c *Ctx) {
 			w.Words = append(w.Words, strings.Repeat("long", 70), strings.Repeat("é", 300))
 		case 1:
 			w.SepKind, w.SepChar = "char", strings.Repeat("-=", 150)
+		case 2: // the empty string is a word NewWordList accepts
+			w.Words = append(w.Words, "")
+			w.Scheme = []string{"first", "all", "one", "random"}[c.R.Intn(4)]
 		}
 		b, err := w.Build()
 		if err != nil {
